@@ -318,6 +318,11 @@ spif_socket_open(spif_socket_t self)
                 spif_ipsockaddr_t addr;
 
                 addr = spif_url_get_ipaddr(self->local_url);
+                if (addr == (spif_ipsockaddr_t) NULL) {
+                    libast_print_error("Unable to bind socket %d to %s -- no usable local address\n", (int) self->fd,
+                                SPIF_STR_STR(self->local_url));
+                    return FALSE;
+                }
 
                 D_OBJ(("Binding to port %d\n", ntohs(addr->sin_port)));
                 if (bind(self->fd, (spif_sockaddr_t) addr, SPIF_SIZEOF_TYPE(ipsockaddr))) {
